@@ -498,32 +498,36 @@ def contents (X : Ctx) : VM (List Elem) := do
     let p ← lift X (Gen.data X.env)
     rdRange p 0 l
 
-/-- the word right in front of element 0. `grow` writes the block's alignment there before it installs
-    the block (`GM.writeMirror`; a block without it is never installed in the model: `GM.setBuf`), and
-    nothing else ever writes it, so in the model its content is the block's recorded alignment. -/
-def readMirror : VM Nat := do
-  let v ← getV
-  match v.blk with
-  | some b => pure b.lay.align
-  | none => ub "word in front of a null data pointer read"
-
 /-- `into_raw_parts` followed by `from_raw_parts` (or `as_mut_ptr`, `forget`, `from_raw_part`):
-    `pre` is the regenerated prefix of the function (up to its first pointer statement); then the
-    alignment is read from the word in front of element 0 and the header is looked for
-    `next_aligned(size_of::<Header>(), alignment)` bytes in front of it (the REGENERATED `next_aligned`).
-    The rebuilt handle must denote the same block, i.e. that distance must be the block's true data
-    offset. `none` for a vector without storage. -/
-def raw_roundtrip (X : Ctx) (pre : GM Unit) : VM (Option (Nat × Nat)) := do
+    `back` is the regenerated function up to `let buf = p.sub(aligned)`, run on the data pointer: it reads the
+    alignment from the word in front of element 0 (`GM.readMirror`: that word holds the block's alignment
+    because `grow` writes it before it installs a block — `GM.writeMirror`, `GM.setBuf` — and nothing else
+    writes it) and computes the distance `aligned` it is about to walk back (the REGENERATED `next_aligned`).
+    The rebuilt handle must denote the same block, i.e. that distance must be the true data offset.
+    `none` for a vector without storage. -/
+def raw_roundtrip (X : Ctx) (back : DPtr → GM Nat) : VM (Option (Nat × Nat)) := do
   let p ← lift X (Gen.as_mut_ptr X.env)
   match p with
   | .null => pure none
   | .at off => do
     let l ← lift X (Gen.len X.env)
     let c ← lift X (Gen.capacity X.env)
-    lift X pre
-    let a ← readMirror
-    let back ← lift X (GM.liftE (Gen.next_aligned X.env hdrSize a))
-    if back = off then pure (some (l, c)) else ub "from_raw_part(s) walks back to a different address"
+    let aligned ← lift X (back (.at off))
+    if aligned = off then pure (some (l, c)) else ub "from_raw_part(s) walks back to a different address"
+
+/-- the distance `from_raw_part` walks back from the data pointer (regenerated code) -/
+def backPart (X : Ctx) (p : DPtr) : GM Nat := do
+  let f ← Gen.from_raw_part_pre X.env p
+  match f with
+  | .cont env => pure env.v_aligned
+  | .ret _ => GM.throw .ub
+
+/-- the distance `from_raw_parts` walks back from the data pointer (regenerated code) -/
+def backParts (X : Ctx) (l c : Nat) (p : DPtr) : GM Nat := do
+  let f ← Gen.from_raw_parts_pre X.env p l c
+  match f with
+  | .cont env => pure env.v_aligned
+  | .ret _ => GM.throw .ub
 
 end Vec
 end MV
